@@ -48,7 +48,13 @@ type Recorder struct {
 	// delay makes every mutating operation take this long (a slow disk): it widens the windows in which
 	// the queue holds its lock across a storage call.
 	delay atomic.Int64
+	// delDelay: the same for operations that delete something only (the completion of a hand-off): a slow
+	// completion write next to fast dequeue writes
+	delDelay atomic.Int64
 }
+
+// SetDeleteDelay makes every storage operation that deletes a key sleep for d first.
+func (r *Recorder) SetDeleteDelay(d time.Duration) { r.delDelay.Store(int64(d)) }
 
 // SetDelay makes every mutating storage operation sleep for d.
 func (r *Recorder) SetDelay(d time.Duration) { r.delay.Store(int64(d)) }
@@ -117,6 +123,14 @@ func (c *recClient) Batch(ctx context.Context, ops ...*storage.Operation) error 
 	if d := r.delay.Load(); d > 0 {
 		for _, op := range ops {
 			if op.Type != storage.Get {
+				time.Sleep(time.Duration(d))
+				break
+			}
+		}
+	}
+	if d := r.delDelay.Load(); d > 0 {
+		for _, op := range ops {
+			if op.Type == storage.Delete {
 				time.Sleep(time.Duration(d))
 				break
 			}
